@@ -79,7 +79,7 @@ func Parse(str string) (Selector, error) {
 				if strings.Contains(fieldName, ":") {
 					return nil, newParseError(fmt.Sprintf("invalid segment: %s", seg), str, col, tok)
 				}
-				sel = append(sel, segment{str: tok, optional: opt, field: fieldName})
+				sel = append(sel, segment{str: tok, optional: opt, isField: true, field: fieldName})
 
 			// slice [3:5] or [:5] or [3:], also negative numbers
 			case sliceRegex.MatchString(lookup):
@@ -116,7 +116,7 @@ func Parse(str string) (Selector, error) {
 			}
 
 		case fieldRegex.MatchString(seg):
-			sel = append(sel, segment{str: tok, optional: opt, field: seg[1:]})
+			sel = append(sel, segment{str: tok, optional: opt, isField: true, field: seg[1:]})
 		default:
 			return nil, newParseError(fmt.Sprintf("invalid segment: %s", seg), str, col, tok)
 		}
